@@ -145,6 +145,7 @@ class Actor:
         self.dom_visible = dom_visible or []  # actors (blocks) whose copyable wires are visible through Dom edges
         self.depth = 0 if parent is None else parent.depth + 1
         self.type_vars = None  # set for polymorphic function bodies
+        self.tmodel = None  # index model when the builder is a TrackedDfg
 
     # ---- wire selection ----------------------------------------------------------------
     def visible_outer(self, ty=None):
@@ -225,6 +226,8 @@ class Actor:
         wires = [w.wire for w in ins]
         how = ch.draw(3, "how-add")
         name = opname or type(op).__name__
+        if self.tmodel is not None and how != 0 and md is None and ins and len(out_tys) >= len(ins):
+            return self.add_tracked(op, ins, out_tys, name, how)
         if how == 0 or md is not None:
             kw = {"metadata": md} if md is not None else {}
             n = self.call(f"add_op:{name}", self.b.add_op, op, *wires, **kw)
@@ -237,6 +240,38 @@ class Actor:
         self.sim.handle(n, len(out_tys), f"add_op:{name}")
         if md is not None:
             self.sim.meta[n.idx] = md
+        return self.add_out(n, out_tys)
+
+    def add_tracked(self, op, ins, out_tys, name, how):
+        """TrackedDfg root: pass some arguments as tracked indices.  `tmodel` is the generator's own index
+        model (the contract of C15: an index denotes the most recent wire stored at it), never `b.tracked`."""
+        ch = self.sim.ctx.ch
+        args = []
+        used_idx = set()
+        for pos, w in enumerate(ins):
+            key = (w.node_idx, w.wire.out_port().offset)
+            if ch.coin(1, 2, "by-index"):
+                idxs = [i for i, k in enumerate(self.tmodel) if k == key and i not in used_idx]
+                if idxs:
+                    i = idxs[0]
+                else:
+                    i = self.call("track_wire", self.b.track_wire, w.wire)
+                    self.tmodel.append(key)
+                    if i != len(self.tmodel) - 1:
+                        raise Discard("track_wire:index")
+                used_idx.add(i)
+                args.append(i)
+            else:
+                args.append(w.wire)
+        com = T().ops.Command(op, args)
+        n = self.call(f"add:{name}", self.b.add, com) if how == 1 else self.call(f"extend:{name}", self.b.extend, com)[0]
+        for pos, a in enumerate(args):
+            if isinstance(a, int):
+                self.tmodel[a] = (n.idx, pos)
+                self.sim.ctx.probe("tracked_index_command")
+        self.nodes.append(n)
+        self.dep_local(ins, n.idx)
+        self.sim.handle(n, len(out_tys), f"add_op:{name}")
         return self.add_out(n, out_tys)
 
     def dep_local(self, ins, idx):
@@ -750,6 +785,8 @@ class BuilderSim:
         if rk in ("dfg", "tracked"):
             b = Dfg(*ins) if rk == "dfg" else TrackedDfg(*ins, track_inputs=ch.coin(1, 2, "track-inputs"))
             a = Actor(self, "dfg-root", b, ins, None, None)
+            if rk == "tracked":
+                a.tmodel = [(w.out_port().node.idx, w.out_port().offset) for w in b.tracked]
         elif rk == "function":
             b = Function("main", ins)
             a = Actor(self, "func", b, ins, None, None)
@@ -1126,6 +1163,8 @@ class BuilderSim:
         if not sig.params:
             return sig.body, []
         kind = f["poly_kind"]
+        if kind == "misc":
+            return sig.body, list(f["misc_args"])
         if kind == "type":
             bound = sig.params[0].bound
             ty = self.gen_type(1, linear_ok=(bound == t.tys.TypeBound.Any), synth_only=True)
@@ -1244,6 +1283,21 @@ class ModuleCtl:
             else:
                 self.call("add_alias_decl", m.add_alias_decl, f"A{self.n}", t.tys.TypeBound.Copyable)
         else:  # polymorphic function: declared, or defined with pass-through body
+            if ch.coin(1, 3, "poly-misc"):
+                # parameters of the other kinds (the body does not mention them)
+                choices = [(t.tys.BoundedNatParam(), t.tys.BoundedNatArg(3)), (t.tys.BoundedNatParam(5), t.tys.BoundedNatArg(4)),
+                           (t.tys.StringParam(), t.tys.StringArg("né")), (t.tys.ExtensionsParam(), t.tys.ExtensionsArg(["prelude"])),
+                           (t.tys.ListParam(t.tys.BoundedNatParam()), t.tys.SequenceArg([t.tys.BoundedNatArg(1), t.tys.BoundedNatArg(2)])),
+                           (t.tys.TupleParam([t.tys.StringParam(), t.tys.TypeTypeParam(t.tys.TypeBound.Any)]),
+                            t.tys.SequenceArg([t.tys.StringArg("s"), t.tys.TypeTypeArg(t.Q)]))]
+                picked = [ch.pick(choices, "misc-param") for _ in range(1 + ch.draw(2, "n-misc"))]
+                ins, outs = sim.gen_row(2), sim.gen_row(2)
+                sig = t.tys.PolyFuncType([p for p, _ in picked], t.tys.FunctionType(ins, outs))
+                n = self.call("declare_function", m.declare_function, name, sig)
+                sim.funcs.append({"node": n, "name": name, "actor": None, "calls": 0, "poly_kind": "misc", "sig": sig,
+                                  "misc_args": [a for _, a in picked], "callable": lambda: True})
+                sim.ctx.probe("poly_misc_params")
+                return
             if ch.coin(1, 2, "poly-row"):
                 p = t.tys.ListParam(t.tys.TypeTypeParam(t.tys.TypeBound.Copyable))
                 rv = t.tys.RowVariable(0, t.tys.TypeBound.Copyable)
